@@ -13,7 +13,11 @@ A *function spec*:
                                            prepended values (no controls)
      'tag': int,                           parameter i is sent to bus tag+i
      'wraps': [{'pos': 0|1, 'fn': spec}]}  sub-functions attached with wrap
-                                           before (0) / after (1) the outputs
+                                           before (0) / after (1) the outputs;
+                                           'pre_sig': the one prepended value
+                                           is the enclosing function's first
+                                           control parameter (a signal)
+     'prepend_vals': [..]                  optional explicit prepended values
 A *case*: {'name': def name, 'fn': spec, 'specs': {param: default} | None,
            'variants': None | [[vname, [[cname, value|[values]], ...]], ...],
            'call': None | {'pos': [values], 'kw': [[name, value], ...]}}
@@ -41,7 +45,12 @@ Don't-cares (every answer accepted), encoded as *sets of acceptable answers*:
   * a lag list of length >1 on a one-slot control-rate parameter: `undecided`;
   * order of the name table, of the variants, of the pairs in the call;
   * how many control units realise a group, and whether unlagged control-rate
-    slots sit in a Control or in a LagControl with lag 0.
+    slots sit in a Control or in a LagControl with lag 0;
+  * a `rates` list with more entries than the function has parameters: a
+    refusal is accepted (`excess_rates`); if the definition is built the
+    surplus entries must not change the layout of the existing parameters.
+  * a lag list longer than the parameter has slots: a refusal is accepted
+    (`overlong_lag_list`); if built, slot j carries its j-th time.
 """
 
 import itertools
@@ -143,6 +152,35 @@ def block_layout(ctls):
     return off, cur
 
 
+def excess_rates(case):
+    """Some function of the case has more rates entries than parameters:
+    the statement says nothing about entries that belong to no parameter, so
+    a refusal is accepted; if the definition is built the parameters that
+    exist must still be laid out by their own entries."""
+    return any(len(f.get('rates') or []) > len(f['params'])
+               for f in functions_of(case['fn']))
+
+
+def overlong_lag_list(case):
+    """Some parameter has a lag list with more times than it has slots (in
+    one of the acceptable alignments): like a variant with more values than
+    slots this may be refused; if the definition is built slot j carries the
+    j-th time."""
+    for f in functions_of(case['fn']):
+        k = f.get('prepend', 0)
+        rates = f.get('rates') or []
+        for shift in ({0, k} if k else {0}):
+            for i, (name, ann, dflt) in enumerate(f['params']):
+                ri = i - shift
+                if i < k or not 0 <= ri < len(rates):
+                    continue
+                n = len(dflt) if isinstance(dflt, list) else 1
+                if isinstance(rates[ri], list) and len(rates[ri]) > n and \
+                        ann in (None, 'kr'):     # a lag is used at all
+                    return True
+    return False
+
+
 def alignments(case):
     fns = functions_of(case['fn'])
     if any(f.get('prepend', 0) and f.get('rates') for f in fns):
@@ -182,6 +220,17 @@ def expected(case, align='post', perm=None):
                 params[s0 + j] = v
                 slots[s0 + j] = {'group': c['group'], 'name': c['name'],
                                  'lags': c['lags'][j] if c['lags'] else None}
+    # a wrapped function may get a *signal* of the enclosing function as its
+    # prepended argument (wrap entry 'pre_sig'): what its body then sends to
+    # the bus of its first parameter is the enclosing function's first
+    # control parameter, unchanged (same slots, same shape)
+    for f in fns:
+        for w in f.get('wraps') or []:
+            if w.get('pre_sig'):
+                src = f['tag'] + f.get('prepend', 0)
+                if src not in wiring:
+                    raise Undecided('pre_sig without a control parameter')
+                wiring[w['fn']['tag']] = dict(wiring[src])
     exp = {'params': params, 'names': names, 'slots': slots,
            'wiring': wiring, 'align': align, 'order': order}
     exp.update(variants_expected(case, params, ctl_by_name))
